@@ -86,6 +86,34 @@ def _big_queue(size):
     return multiprocessing.Queue(64)
 
 
+def _upstream(bbox, size):
+    """The upstream: logs every request (to a file: seed workers are forked processes) and answers with the
+    number of successful requests so far (painted by the caller), or None while it is down."""
+    with open(_Env.logf, 'a+') as f:
+        f.seek(0)
+        nok = sum(1 for ln in f.read().splitlines() if '"ok": true' in ln)
+        f.write(json.dumps({'bbox': list(bbox), 'size': list(size), 'ok': bool(_Env.up)}) + '\n')
+    return nok + 1 if _Env.up else None
+
+
+def _fake_http_open(self, url, data=None, method=None):
+    """HTTPClient.open for configurations with a WMS source: the same upstream behind HTTP"""
+    from urllib.parse import urlparse, parse_qs
+    from mapproxy.client.http import HTTPClientError
+    from mapproxy.compat.image import Image
+    q = {k.lower(): v[0] for k, v in parse_qs(urlparse(url).query).items()}
+    size = (int(q['width']), int(q['height']))
+    v = _upstream([float(x) for x in q['bbox'].split(',')], size)
+    if v is None:
+        raise HTTPClientError('No response from URL "%s": upstream is down' % url)
+    buf = io.BytesIO()
+    Image.new('RGB', size, (v // 256, v % 256, 77)).save(buf, 'PNG')
+    buf.seek(0)
+    buf.headers = {'content-type': 'image/png'}
+    buf.code = 200
+    return buf
+
+
 def install():
     """Interpose the clock at module level (no change to the repository)."""
     if _Env.installed is not None:
@@ -96,6 +124,7 @@ def install():
     import mapproxy.cache.mbtiles as m_mbtiles
     import mapproxy.seed.util as m_sutil
     import mapproxy.seed.seeder as m_seeder
+    import mapproxy.client.http as m_http
     real_write_atomic = m_file.write_atomic
 
     def write_atomic(filename, data):
@@ -106,7 +135,8 @@ def install():
 
     saved = [(m_times, 'datetime', m_times.datetime), (m_file, 'write_atomic', m_file.write_atomic),
              (m_base, 'time', m_base.time), (m_mbtiles, 'time', m_mbtiles.time), (m_sutil, 'time', m_sutil.time),
-             (m_seeder, 'queue_class', m_seeder.queue_class)]
+             (m_seeder, 'queue_class', m_seeder.queue_class), (m_http.HTTPClient, 'open', m_http.HTTPClient.open)]
+    m_http.HTTPClient.open = _fake_http_open
     m_times.datetime = _DatetimeModule
     m_file.write_atomic = write_atomic
     tm = _TimeModule()
@@ -164,7 +194,7 @@ class World(object):
         shutil.rmtree(root, ignore_errors=True)
         os.makedirs(root)
         self.backend = backend
-        self.trunc, self._mk_cache = BACKENDS[backend]
+        self.trunc = BACKENDS[backend][0]
         self.path = path
         self.names = ['t%d' % (i + 1) for i in range(ntiles)]
         self.grid = tile_grid(srs=4326, bbox=[0, 0, 10 * ntiles, 10], res=[10.0 / TS], tile_size=(TS, TS), origin='ll')
@@ -197,6 +227,9 @@ class World(object):
         self.rule = R('none')
         self.nset = 0
         self.tm = self.new_manager(self.rule)
+
+    def _mk_cache(self, root):
+        return BACKENDS[self.backend][1](root)
 
     # ---- construction, as mapproxy.config.loader.CacheConfiguration.caches does --------------
     def conf_of(self, rule):
@@ -348,6 +381,75 @@ class World(object):
             mgr.cleanup()
 
 
+class ConfWorld(World):
+    """The same world, but every TileManager and seed task is built by the configuration code from dictionaries
+    as they come out of mapproxy.yaml / seed.yaml (mapproxy.config.loader.ProxyConfiguration,
+    mapproxy.seed.config.SeedingConfiguration); the upstream is a WMS source behind HTTPClient.open."""
+
+    def conf(self, rule):
+        ctype = {'file': {'type': 'file', 'directory_layout': 'tc'}, 'file-tms': {'type': 'file', 'directory_layout': 'tms'},
+                 'file-arcgis': {'type': 'file', 'directory_layout': 'arcgis'}, 'sqlite': {'type': 'sqlite'}}[self.backend]
+        cache = {'grids': ['g'], 'sources': ['up'], 'format': 'image/png', 'meta_buffer': 0,
+                 'concurrent_tile_creators': 1,            # requests are sequential here (concurrency is C08)
+                 'meta_size': [2, 1] if self.path == 'meta' else [1, 1],
+                 'cache': dict(ctype, directory=os.path.join(self.root, 'cache'))}
+        rb = self.conf_of(rule)
+        if rb:
+            cache['refresh_before'] = rb
+        return {
+            'globals': {'cache': {'base_dir': os.path.join(self.root, 'cache_data'),
+                                  'lock_dir': os.path.join(self.root, 'locks'),
+                                  'tile_lock_dir': os.path.join(self.root, 'tile_locks')},
+                        'image': {'paletted': False}},
+            'grids': {'g': {'srs': 'EPSG:4326', 'bbox': [0, 0, 10 * len(self.names), 10], 'res': [10.0 / TS],
+                            'tile_size': [TS, TS], 'origin': 'll'}},
+            'sources': {'up': {'type': 'wms', 'req': {'url': 'http://upstream.invalid/service', 'layers': 'x'},
+                               'supported_srs': ['EPSG:4326']}},
+            'caches': {'c': cache},
+            'layers': [{'name': 'l', 'title': 'l', 'sources': ['c']}],
+            'services': {'tms': {}},
+        }
+
+    def new_manager(self, rule, seed=False):
+        from mapproxy.config.loader import ProxyConfiguration
+        self.pc = ProxyConfiguration(self.conf(rule), conf_base_dir=self.root, seed=seed, renderd=False)
+        grid, extent, mgr = self.pc.caches['c'].caches()[0]
+        if tuple(grid.grid_sizes[0]) != (len(self.names), 1) or (mgr.meta_grid is not None) != (self.path == 'meta'):
+            raise tlc.MachineryError('configured cache does not have the expected grid / meta grid')
+        self.cache_dir = getattr(mgr.cache, 'cache_dir', None)
+        return mgr
+
+    def _mk_cache(self, root):
+        # for observation: a fresh cache object on the directory the configuration chose
+        from mapproxy.cache.file import FileCache
+        from mapproxy.cache.mbtiles import MBTilesLevelCache
+        if self.backend == 'sqlite':
+            return MBTilesLevelCache(self.cache_dir)
+        return FileCache(self.cache_dir, 'png', directory_layout=self.backend.split('-')[1] if '-' in self.backend else 'tc')
+
+    def seed(self, srule):
+        from mapproxy.seed.config import SeedingConfiguration
+        from mapproxy.seed.seeder import seed_task
+        self.tm.cleanup()
+        self.new_manager(self.rule, seed=True)            # mapproxy-seed loads mapproxy.yaml itself
+        sconf = {'seeds': {'s': {'caches': ['c'], 'grids': ['g'], 'levels': [0], 'refresh_before': self.conf_of(srule)}}}
+        tasks = SeedingConfiguration(sconf, mapproxy_conf=self.pc).seeds(['s'])
+        old = sys.stderr
+        sys.stderr = io.StringIO()
+        try:
+            for task in tasks:
+                seed_task(task, concurrency=1, dry_run=False, skip_geoms_for_last_levels=0, progress_logger=None)
+                task.tile_manager.cleanup()
+        finally:
+            sys.stderr = old
+
+
+def make_world(root, backend, path, ntiles, mode='direct'):
+    if mode == 'config' and backend != 'mbtiles-ts':
+        return ConfWorld(root, backend, path, ntiles)
+    return World(root, backend, path, ntiles)
+
+
 def version_of(source):
     if source is None:
         return 0
@@ -376,13 +478,9 @@ def _make_source_class():
             self.res_range = None
 
         def get_map(self, query):
-            with open(_Env.logf, 'a+') as f:
-                f.seek(0)
-                nok = sum(1 for ln in f.read().splitlines() if '"ok": true' in ln)
-                f.write(json.dumps({'bbox': list(query.bbox), 'size': list(query.size), 'ok': bool(_Env.up)}) + '\n')
-            if not _Env.up:
+            v = _upstream(query.bbox, query.size)
+            if v is None:
                 raise SourceError('upstream is down')
-            v = nok + 1
             img = Image.new('RGB', query.size, (v // 256, v % 256, 77))
             return ImageSource(img, image_opts=self.image_opts)
 
@@ -569,7 +667,7 @@ def detect_precedence(ctx):
     verdicts = {}
     for path in ('single', 'meta'):
         # the counterexample of the single path is a history of the meta path too (the expected states differ)
-        w = World(os.path.join(ctx.sub('prec-world'), path), 'file', path, 2)
+        w = make_world(os.path.join(ctx.sub('prec-world'), path), 'file', path, 2, 'config' if path == 'meta' else 'direct')
         try:
             for lab in labels[:-1]:
                 before = w.do(event_of(lab))['cache']
@@ -814,22 +912,26 @@ def spec_to_code(ctx, prec, tally, covers):
 
     def replay_all(behs, backend, path, ntiles, what):
         name = '%s-%s' % (backend, path)
-        for beh in behs:
-            w = World(os.path.join(ctx.sub('world'), name), backend, path, ntiles)
-            try:
-                res = replay_behaviour(w, beh, tally)
-            finally:
-                w.close()
-            nrep[0] += 1
-            ctx.cov['replayed_behaviours'] += 1
-            ctx.cov['replayed_steps'] += len(beh) - 1
-            ctx.count(('replay', name, tuple(a for a, _ in beh[1:])))
-            if res is not None:
-                i, text, events = res
-                ctx.violation(dict(classify(events[-1], text), kind='replay', path=path),
-                              '%s/%s path (%s): %s' % (backend, path, what, text),
-                              {'backend': backend, 'path': path, 'ntiles': ntiles, 'precedence': prec,
-                               'history': [a for a, _ in beh[1:i + 2]], 'events': events})
+        for k, beh in enumerate(behs):
+            # thorough: every behaviour on directly constructed objects and on configured ones; quick: alternating
+            for mode in (('direct', 'config') if thorough else (('direct', 'config')[k % 2],)):
+                if mode == 'config' and backend == 'mbtiles-ts':
+                    continue
+                w = make_world(os.path.join(ctx.sub('world'), name), backend, path, ntiles, mode)
+                try:
+                    res = replay_behaviour(w, beh, tally)
+                finally:
+                    w.close()
+                nrep[0] += 1
+                ctx.cov['replayed_behaviours'] += 1
+                ctx.cov['replayed_steps'] += len(beh) - 1
+                ctx.count(('replay', name, mode, tuple(a for a, _ in beh[1:])))
+                if res is not None:
+                    i, text, events = res
+                    ctx.violation(dict(classify(events[-1], text), kind='replay', path=path),
+                                  '%s/%s path (%s, %s): %s' % (backend, path, what, mode, text),
+                                  {'backend': backend, 'path': path, 'ntiles': ntiles, 'precedence': prec, 'mode': mode,
+                                   'history': [a for a, _ in beh[1:i + 2]], 'events': events})
 
     # (1) class cover of the exhaustive small model: one shortest behaviour per class of transition
     for (path, trunc), behs in sorted(covers.items()):
@@ -949,7 +1051,8 @@ def code_to_spec(ctx, prec, tally):
             name = '%s-%s' % (backend, path)
             traces = []
             for k in range(reps):
-                w = World(os.path.join(ctx.sub('world'), 'rnd-' + name), backend, path, ntiles)
+                mode = ('direct', 'config')[k % 2]
+                w = make_world(os.path.join(ctx.sub('world'), 'rnd-' + name), backend, path, ntiles, mode)
                 try:
                     ev, err = random_history(ctx.rng, w, nops, tally)
                 finally:
@@ -957,8 +1060,8 @@ def code_to_spec(ctx, prec, tally):
                 ctx.count(('hist', name, k, len(ev), json.dumps(ev[:6], sort_keys=True)))
                 if err:
                     ctx.violation({'kind': 'exception', 'op': ev[-1]['op'], 'path': path},
-                                  '%s/%s path: %s' % (backend, path, err[1]),
-                                  {'backend': backend, 'path': path, 'ntiles': ntiles, 'events': ev})
+                                  '%s/%s path (%s): %s' % (backend, path, mode, err[1]),
+                                  {'backend': backend, 'path': path, 'ntiles': ntiles, 'mode': mode, 'events': ev})
                     ev = ev[:-1]
                 if ev:
                     traces.append(ev)
@@ -1025,27 +1128,41 @@ def run(ctx):
 
 
 def replay(ctx, data):
+    """Re-execute one stored case on the current tree: the history (TLC action labels or recorded events) is run
+    on the real code again, the new recording is validated by TLC against Trace_Expiry with the properties."""
     case = data.get('case') or {}
+    if 'history' in case:
+        ops = [event_of(lab) for lab in case['history']]
+    elif 'events' in case:
+        ops = [{k: e[k] for k in ('op', 'tiles', 'rule', 'd', 'tile') if k in e} for e in case['events']]
+    else:
+        print('nothing to replay')
+        return 0
+    backend, path, ntiles = case.get('backend', 'file'), case.get('path', 'single'), case.get('ntiles', 2)
+    prec = case.get('precedence', 'task')
     install()
     try:
-        if 'history' in case:
-            w = World(os.path.join(ctx.sub('world'), 'replay'), case.get('backend', 'file'), case.get('path', 'single'),
-                      case.get('ntiles', 2))
-            try:
-                for lab in case['history']:
-                    ev = event_of(lab)
+        w = make_world(os.path.join(ctx.sub('world'), 'replay'), backend, path, ntiles, case.get('mode', 'direct'))
+        events = []
+        try:
+            for ev in ops:
+                try:
                     obs = w.do(ev)
-                    print(lab, '->', {k: obs[k] for k in sorted(obs)})
-            finally:
-                w.close()
-            if 'events' not in case:
-                return 1 if not obs['delta'] else 0
-        if 'events' in case and all('cache' in e for e in case['events']):
-            names = sorted(case['events'][0]['cache'])
-            r, rejected, propfail = validate_traces(ctx, 'replay', [case['events']], names, case['path'],
-                                                    BACKENDS[case['backend']][0], case.get('precedence', 'task'))
-            print('trace validation:', 'rejected at %r' % (rejected,) if rejected else propfail or 'accepted')
-            return 1 if rejected or propfail else 0
-        return 0
+                except Exception as ex:
+                    print('%s raised %r' % (ev, ex))
+                    return 1
+                print(ev, '->', {k: obs[k] for k in sorted(obs)})
+                events.append(dict(ev, **obs))
+        finally:
+            w.close()
+        r, rejected, propfail = validate_traces(ctx, 'replay', [events], ['t%d' % (i + 1) for i in range(ntiles)], path,
+                                                BACKENDS[backend][0], prec)
+        if propfail:
+            print('recorded history violates %s at event %d (Expiry.tla, precedence %s)' % (propfail[2], propfail[1], prec))
+        elif rejected:
+            print('recorded history is not a behaviour of Expiry.tla (precedence %s) at event %d' % (prec, rejected[0][1]))
+        else:
+            print('recorded history accepted by Trace_Expiry (precedence %s), all properties hold' % prec)
+        return 1 if rejected or propfail else 0
     finally:
         uninstall()
